@@ -30,6 +30,9 @@ basename dirname normpath abspath realpath isabs relpath splitext commonprefix l
 BUILTIN_CALLS = {"int": "_symx_int", "ord": "_symx_ord", "chr": "_symx_chr", "float": "_symx_float", "str": "_symx_str"}
 
 
+RE_METHOD_VALUES = frozenset(["search", "match", "fullmatch", "findall", "finditer", "sub", "subn"])
+
+
 class Rewriter(ast.NodeTransformer):
     def __init__(self, strings=True, order=False, dicts=False):
         self.strings = strings
@@ -65,6 +68,11 @@ class Rewriter(ast.NodeTransformer):
         # a bare reference to a function of the re module / an unbound str method (e.g. `find = re.search`, `map(str.strip, x)`)
         if self.strings and isinstance(node.ctx, ast.Load) and isinstance(node.value, ast.Name) and node.value.id in ("re", "str") \
                 and node.attr in STR_METHODS:
+            call = ast.Call(func=ast.Name(id="_symx_attr", ctx=ast.Load()), args=[node.value, ast.Constant(value=node.attr)], keywords=[])
+            return ast.copy_location(call, node)
+        # a bound method of a compiled pattern taken as a value (e.g. `matches = re.compile(p).search`): the receiver can be any
+        # expression, _symx_attr falls back to getattr for everything that is not a pattern object
+        if self.strings and isinstance(node.ctx, ast.Load) and node.attr in RE_METHOD_VALUES:
             call = ast.Call(func=ast.Name(id="_symx_attr", ctx=ast.Load()), args=[node.value, ast.Constant(value=node.attr)], keywords=[])
             return ast.copy_location(call, node)
         return node
